@@ -188,6 +188,20 @@ def run_case(ctx, case):
             return Result(False, True, {"why": "%s did not return the supplied out buffer" % case["fn"], "kw": kwname})
         if not np.array_equal(buf, ref):
             return Result(False, True, {"why": "%s: out buffer does not hold the result of the call without out" % case["fn"]})
+        # "writes the complete result into out": a second call into a buffer pre-filled with a different value must give the same
+        # contents (stale cells would differ; this does not depend on what the call without out happened to find in fresh memory)
+        buf2 = np.full(oshape, 0 if odt == bool else 13, dtype=odt)
+        call_kw2 = dict(kw)
+        call_kw2[kwname] = buf2
+        with warnings.catch_warnings():
+            warnings.simplefilter("ignore")
+            if case["fn"] == "label":
+                mh.label(*args, **call_kw2)
+            else:
+                sp["fn"](*[x.copy() if isinstance(x, np.ndarray) else x for x in args], **call_kw2)
+        if not np.array_equal(buf, buf2):
+            return Result(False, True, {"why": "%s: the contents of out after the call depend on what out held before (not completely "
+                                               "written)" % case["fn"]})
         return Result(True, len(np.unique(ref)) > 1, None, "%s/valid" % case["fn"])
     if exc is None:
         # a buffer that does not match the documented dtype/shape/contiguity was accepted
